@@ -27,6 +27,7 @@ import (
 	"time"
 
 	"github.com/bronlabs/bron-crypto/pkg/base"
+	"github.com/bronlabs/bron-crypto/pkg/base/datastructures/hashmap"
 	"github.com/bronlabs/bron-crypto/pkg/base/datastructures/hashset"
 	"github.com/bronlabs/bron-crypto/pkg/base/serde"
 	"github.com/bronlabs/bron-crypto/pkg/mpc/sharing"
@@ -736,7 +737,7 @@ func genWindow() []gcase {
 		for f := 1; f <= k; f++ {
 			froms = append(froms, uint64(f))
 		}
-		for variant := 0; variant < 6; variant++ {
+		for variant := 0; variant < 10; variant++ {
 			ops := []op{{kind: 'R', rid: 0, cid: "boot"}, {kind: 'R', rid: 1, ns: ns, cid: "x", froms: froms, pause: 1}}
 			name := ""
 			switch variant {
@@ -757,6 +758,23 @@ func genWindow() []gcase {
 			case 4:
 				name = "conflict"
 				ops = append(ops, op{kind: 'D', from: 1, ns: ns, cid: "x", payload: []byte{1}}, op{kind: 'D', from: 1, ns: ns, cid: "x", payload: []byte{2}})
+			case 6, 7, 8, 9:
+				// the set completes in the window and then the router fails / the call is cancelled /
+				// a conflict arrives: the scan's priority (poison > complete > failure > cancellation) decides
+				name = []string{"deposit-close", "deposit-cancel", "deposit-readerr", "deposit-conflict"}[variant-6]
+				for f := 1; f <= k; f++ {
+					ops = append(ops, op{kind: 'D', from: uint64(f), ns: ns, cid: "x", payload: []byte{byte(f)}})
+				}
+				switch variant {
+				case 6:
+					ops = append(ops, op{kind: 'S'})
+				case 7:
+					ops = append(ops, op{kind: 'C', rid: 1})
+				case 8:
+					ops = append(ops, op{kind: 'E'})
+				default:
+					ops = append(ops, op{kind: 'D', from: 1, ns: ns, cid: "x", payload: []byte{0xee}})
+				}
 			case 5:
 				name = "deposit-dup"
 				for f := 1; f <= k; f++ {
@@ -1278,6 +1296,99 @@ func runEcho(t *testing.T, e echoCase) (string, []string) {
 	return results, fails
 }
 
+// roundByRound drives the real echo.Participant round functions directly (no router, no runner):
+// every party's Round1/Round2/Round3 with exactly the inputs the case prescribes; the equivocator
+// is two participants (faces), face 1 heard by group A, face 2 by the others.
+func roundByRound(e echoCase) string {
+	type part = echo.Participant[*hmsg, *hpart]
+	type r1m = *echo.Round1P2P[*hmsg, *hpart]
+	type r2m = *echo.Round2P2P[*hmsg, *hpart]
+	q := make([]sharing.ID, len(e.quorum))
+	for i, x := range e.quorum {
+		q[i] = sharing.ID(x)
+	}
+	qs := hashset.NewComparable(q...).Freeze()
+	inA := map[uint64]bool{}
+	for _, x := range e.groupA {
+		inA[x] = true
+	}
+	type pf struct {
+		id   uint64
+		face int
+		p    *part
+		r1   map[sharing.ID]r1m
+		r2   map[sharing.ID]r2m
+		fail bool
+	}
+	var ps []*pf
+	for _, id := range e.quorum {
+		faces := []int{0}
+		if id == e.eq {
+			faces = []int{1, 2}
+		}
+		for _, f := range faces {
+			p, err := echo.NewParticipant[*hmsg, *hpart](sharing.ID(id), qs)
+			if err != nil {
+				return "error"
+			}
+			ps = append(ps, &pf{id: id, face: f, p: p, r1: map[sharing.ID]r1m{}, r2: map[sharing.ID]r2m{}})
+		}
+	}
+	heard := func(src *pf, dst uint64) bool {
+		return src.face == 0 || src.face == 1 && inA[dst] || src.face == 2 && !inA[dst]
+	}
+	for _, src := range ps {
+		msg := e.msgs[src.id]
+		if src.face == 2 {
+			msg = e.m2
+		}
+		out, err := src.p.Round1(&hmsg{V: msg})
+		if err != nil {
+			return "error"
+		}
+		for _, dst := range ps {
+			if dst.id != src.id && heard(src, dst.id) {
+				if m, ok := out.Get(sharing.ID(dst.id)); ok {
+					dst.r1[sharing.ID(src.id)] = m
+				}
+			}
+		}
+	}
+	for _, src := range ps {
+		out, err := src.p.Round2(hashmap.NewImmutableComparableFromNativeLike(src.r1))
+		if err != nil {
+			src.fail = true
+			continue
+		}
+		for _, dst := range ps {
+			if dst.id != src.id && heard(src, dst.id) {
+				if m, ok := out.Get(sharing.ID(dst.id)); ok {
+					dst.r2[sharing.ID(src.id)] = m
+				}
+			}
+		}
+	}
+	var parts []string
+	for _, p := range ps {
+		if p.face != 0 {
+			continue
+		}
+		r := "failed"
+		if !p.fail {
+			if out, err := p.p.Round3(hashmap.NewImmutableComparableFromNativeLike(p.r2)); err == nil {
+				m := map[sharing.ID][]byte{}
+				for id, v := range out.Iter() {
+					b, _ := serde.MarshalCBOR(v)
+					m[id] = b
+				}
+				r = classify(m, nil)
+			}
+		}
+		parts = append(parts, fmt.Sprintf("%d:%s", p.id, r))
+	}
+	return strings.Join(parts, " ")
+}
+
 func genEcho(seed int64, count int) []echoCase {
 	var res []echoCase
 	for i := 0; i < count; i++ {
@@ -1321,6 +1432,9 @@ func evalEcho(t *testing.T, a vh.Args, res *vh.Result, cases []echoCase) {
 	reported := map[string]int{}
 	for i, c := range cases {
 		got, fails := runEcho(t, c)
+		if rbr := ""; vh.Safely(func() { rbr = roundByRound(c) }) != "" || rbr != got {
+			fails = append(fails, fmt.Sprintf("runner-vs-rounds: echo runner over routers ended with %s, the same protocol driven round by round with %s", got, rbr))
+		}
 		class := "echo-honest"
 		if c.eq != 0 {
 			class = "echo-equivocator"
@@ -1579,7 +1693,7 @@ func raceDetectorRun(a vh.Args, res *vh.Result) {
 		return
 	}
 	n := strings.Count(string(b), "WARNING: DATA RACE")
-	res.Note("race detector (go1.26 -race, GOMAXPROCS 1/16, racing receivers and reader): %d data race report(s)", n)
+	res.Note("race detector (go1.26 build -race; racing receivers/reader under GOMAXPROCS 1 and 16, a sample of serialised schedules and echo runs): %d data race report(s)", n)
 	if n > 0 {
 		res.Mismatch(vh.Mismatch{ID: "race-detector", Kind: "prop", Key: "data-race", Detail: lastLines(string(b), 40), Case: "racechild seed " + strconv.FormatInt(a.Seed, 10), PropFail: true,
 			What: "no data race in the router under racing receivers/reader (Go memory model assumption of the atomic-step model)"})
@@ -1604,7 +1718,7 @@ func probeHooks(t *testing.T) bool {
 
 func body(t *testing.T, a vh.Args) {
 	res := vh.NewResult("C11", a.Seed, a.Tier)
-	res.Rule = "router: operation lists (launch ReceiveFrom / hand one message to the reader / cancel / release a held receiver / Close / delivery failure / garbage) run against pkg/network.Router over a checker-controlled Delivery inside a testing/synctest bubble (quiescence after every operation), replayed in the extracted model; compared: for every ReceiveFrom the operation after which it returned and its result (payload per sender as hex | error class | blamed id | still parked). Systematic: all arrival orders x receive placement x cancellation placement for k<=3 senders with identical/conflicting retransmission, other-id, other-namespace, non-member extras; held-receiver windows; random long schedules; buffer bound. Echo: echo.ExchangeEchoBroadcast over real routers with a two-faced broadcaster, delivery order and duplication drawn from the seed, compared with coq/model/Echo.v. Non-trivial = some receive returned payloads or a blamed conflict."
+	res.Rule = "router: operation lists (launch ReceiveFrom / hand one message to the reader / cancel / release a held receiver / Close / delivery failure / garbage) run against pkg/network.Router over a checker-controlled Delivery inside a testing/synctest bubble (quiescence after every operation), replayed in the extracted model; compared: for every ReceiveFrom the operation after which it returned and its result (payload per sender as hex | error class | blamed id | still parked). Systematic: all arrival orders x receive placement x cancellation placement for k<=3 senders with identical/conflicting retransmission, other-id, other-namespace, non-member extras; held-receiver windows; random long schedules; buffer bound. Echo: echo.ExchangeEchoBroadcast over real routers with a two-faced broadcaster, delivery order and duplication drawn from the seed, compared with coq/model/Echo.v and with the real echo.Participant rounds driven directly (runner vs round by round). Non-trivial = some receive returned payloads or a blamed conflict."
 	defer func() {
 		res.Write(a.Out)
 	}()
